@@ -95,8 +95,14 @@ impl<'a> FieldParser<'a> {
             ast::FieldDesc::Scalar { id, width } => {
                 let id = id.to_ident();
                 let value = types::get_uint(self.endianness, *width, self.span);
+                let check_size = self.size_check(self.span, *width / 8);
                 quote! {
-                    let #id = (#cond_id == #cond_value).then(|| #value);
+                    let #id = if #cond_id == #cond_value {
+                        #check_size
+                        Some(#value)
+                    } else {
+                        None
+                    };
                 }
             }
             ast::FieldDesc::Typedef { id, type_id } => match &self.scope.typedef[type_id].desc {
@@ -107,18 +113,21 @@ impl<'a> FieldParser<'a> {
                     let type_id = type_id.to_ident();
                     let decl_id = &self.packet_name;
                     let value = types::get_uint(self.endianness, *width, self.span);
+                    let check_size = self.size_check(self.span, *width / 8);
                     quote! {
-                        let #id = (#cond_id == #cond_value)
-                            .then(||
-                                #type_id::try_from(#value).map_err(|unknown_val| {
-                                    DecodeError::EnumValueError {
-                                        obj: #decl_id,
-                                        field: #name,
-                                        value: unknown_val as u64,
-                                        type_: #type_name,
-                                    }
-                                }))
-                            .transpose()?;
+                        let #id = if #cond_id == #cond_value {
+                            #check_size
+                            Some(#type_id::try_from(#value).map_err(|unknown_val| {
+                                DecodeError::EnumValueError {
+                                    obj: #decl_id,
+                                    field: #name,
+                                    value: unknown_val as u64,
+                                    type_: #type_name,
+                                }
+                            })?)
+                        } else {
+                            None
+                        };
                     }
                 }
                 ast::DeclDesc::Struct { .. } => {
@@ -321,6 +330,22 @@ impl<'a> FieldParser<'a> {
         }
 
         Some(offset)
+    }
+
+    /// Length guard for a read of `wanted` octets that is emitted inside a
+    /// conditional, where `check_size` cannot be used.
+    fn size_check(&self, span: &proc_macro2::Ident, wanted: usize) -> proc_macro2::TokenStream {
+        let packet_name = &self.packet_name;
+        let wanted = proc_macro2::Literal::usize_unsuffixed(wanted);
+        quote! {
+            if #span.remaining() < #wanted {
+                return Err(DecodeError::LengthError {
+                    obj: #packet_name,
+                    wanted: #wanted,
+                    got: #span.remaining(),
+                });
+            }
+        }
     }
 
     fn check_size(&mut self, span: &proc_macro2::Ident, wanted: &proc_macro2::TokenStream) {
